@@ -191,6 +191,259 @@ def parse_defaults(repo):
     return out
 
 
+
+# =====================================================================================
+# full charge sequences (exact totals)
+# =====================================================================================
+def fn_defs(repo):
+    """every fn definition under interpreter/: (name, signature text, body text), comments stripped"""
+    out = []
+    base = os.path.join(repo, "fuel-vm/src/interpreter")
+    for path in sorted(glob.glob(os.path.join(base, "**", "*.rs"), recursive=True)):
+        if path.endswith("opcodes_impl.rs") or "test" in os.path.basename(path) or "/tests" in path:
+            continue
+        src = re.sub(r"//[^\n]*", "", open(path).read())
+        for m in re.finditer(r"\bfn\s+(\w+)\s*(?:<[^>{]*>)?\s*\(", src):
+            i = src.find("{", m.end())
+            semi = src.find(";", m.end())
+            if i < 0 or (0 <= semi < i):
+                continue
+            depth, k = 1, i + 1
+            while depth and k < len(src):
+                if src[k] == "{":
+                    depth += 1
+                elif src[k] == "}":
+                    depth -= 1
+                k += 1
+            out.append((m.group(1), re.sub(r"\s+", " ", src[m.start():i]), src[i:k]))
+    return out
+
+
+def pick(defs, name, sig_re):
+    c = [d for d in defs if d[0] == name and re.search(sig_re, d[1])]
+    if len(c) != 1:
+        raise TranslateError("expected exactly one `fn %s` matching /%s/, found %d" % (name, sig_re, len(c)))
+    return c[0]
+
+
+def split_args(s):
+    out, depth, cur = [], 0, ""
+    for ch in s:
+        if ch in "([{":
+            depth += 1
+        elif ch in ")]}":
+            depth -= 1
+        if ch == "," and depth == 0:
+            out.append(cur)
+            cur = ""
+        else:
+            cur += ch
+    if cur.strip():
+        out.append(cur)
+    return [x.strip() for x in out]
+
+
+class Env:
+    """let-bindings of one function body + declared parameter meanings"""
+    def __init__(self, opname, body, params):
+        self.op, self.params = opname, params
+        self.lets = {}
+        for m in re.finditer(r"\blet\s+(?:mut\s+)?(\w+)\s*(?::\s*[\w:<>]+\s*)?=\s*([^;]+);", body):
+            self.lets.setdefault(m.group(1), re.sub(r"\s+", "", m.group(2)))
+
+    def expr(self, e, depth=0):
+        e = re.sub(r"\s+", "", e)
+        if depth > 12:
+            raise TranslateError("%s: expression too deep" % self.op)
+        while True:
+            m = re.fullmatch(r"\((.*)\)", e)
+            if m and balanced(m.group(1)):
+                e = m.group(1)
+                continue
+            m = re.fullmatch(r"(.*)as(?:u64|Word|usize)", e)
+            if m and balanced(m.group(1)):
+                e = m.group(1)
+                continue
+            break
+        m = re.fullmatch(r"core::cmp::max\((.*)\)", e)
+        if m:
+            a = split_args(m.group(1))
+            if len(a) == 2:
+                return "(XMax %s %s)" % (self.expr(a[0], depth + 1), self.expr(a[1], depth + 1))
+        m = re.fullmatch(r"(\w+)\.max\((.*)\)", e)
+        if m:
+            return "(XMax %s %s)" % (self.expr(m.group(1), depth + 1), self.expr(m.group(2), depth + 1))
+        m = re.fullmatch(r"padded_len_(?:word|usize)\((.*)\)\.ok_or\(PanicReason::MemoryOverflow\)\?", e)
+        if m:
+            return "(XPad8 %s)" % self.expr(m.group(1), depth + 1)
+        m = re.fullmatch(r"(?:bytes::)?padded_len_word\((.*)\)\.unwrap_or\(Word::MAX\)", e)
+        if m:
+            return "(XPad8Max %s)" % self.expr(m.group(1), depth + 1)
+        if re.fullmatch(r"contract_size\(&?self\.storage,[^()]*(\(\))?\)\?", e):
+            return "(XObs OCodeSize)"
+        if re.fullmatch(r"blob_size\(&?self\.storage,&\w+\)\?", e):
+            return "(XObs OBlobSize)"
+        if re.fullmatch(r"\w+", e):
+            if e in self.lets:
+                return self.expr(self.lets[e], depth + 1)
+            if e in self.params:
+                return self.params[e]
+        raise TranslateError("%s: unit expression %r not understood" % (self.op, e))
+
+
+def balanced(s):
+    d = 0
+    for ch in s:
+        if ch in "([{":
+            d += 1
+        elif ch in ")]}":
+            d -= 1
+            if d < 0:
+                return False
+    return d == 0
+
+
+def charges_in(opname, body, params, field, guard="GAlways"):
+    """charge statements of one function body in textual order -> [(guard, item)]"""
+    env = Env(opname, body, params)
+    found = []
+    for m in re.finditer(r"self\.gas_charge\(gas_cost\.base\(\)\)\?;", body):
+        found.append((m.start(), guard, 'ChBase "%s"' % field))
+    for m in re.finditer(r"(?:self\.)?dependent_gas_charge_without_base\(", body):
+        j = m.end()
+        depth, k = 1, j
+        while depth:
+            if body[k] == "(":
+                depth += 1
+            elif body[k] == ")":
+                depth -= 1
+            k += 1
+        args = split_args(body[j:k - 1])
+        g = guard
+        # `if X == 0 { inc_pc(self.pc); return Ok(()) }` before the charge: guarded by X != 0
+        mz = re.search(r"if\s+(\w+)\s*==\s*0\s*\{\s*inc_pc\(self\.pc\);\s*return\s+Ok\(\(\)\)\s*\}", body[:m.start()])
+        if mz:
+            gz = "(GNz %s)" % env.expr(mz.group(1))
+            g = gz if guard == "GAlways" else "(GAnd %s %s)" % (guard, gz)
+        found.append((m.start(), g, 'ChDepNoBase "%s" %s' % (field, env.expr(args[-1]))))
+    for m in re.finditer(r"\bgas_charge\(\s*self\.(?:registers\.system_registers\.)?cgas(?:\.as_mut\(\))?,\s*self\.(?:registers\.system_registers\.)?ggas(?:\.as_mut\(\))?,\s*([^;]*?),?\s*\)\?;", body, re.S):
+        amt = re.sub(r"\s+", "", m.group(1))
+        if amt in ("((Bytes32::LEN+WORD_SIZE)asu64).saturating_mul(self.new_storage_gas_per_byte)",
+                   "(BALANCE_ENTRY_SIZEasu64).saturating_mul(self.new_storage_gas_per_byte)"):
+            pre = body[max(0, m.start() - 160):m.start()]
+            if not re.search(r"if\s+(created_new_entry|old_value\.is_none\(\))\s*\{\s*$", pre):
+                raise TranslateError("%s: new-entry charge is not guarded as expected" % opname)
+            g = "GNewEntry" if guard == "GAlways" else "(GAnd %s GNewEntry)" % guard
+            found.append((m.start(), g, "ChPerByte 40"))
+        else:
+            raise TranslateError("%s: gas_charge amount %r not understood" % (opname, amt))
+    found.sort()
+    return [(g, it) for _, g, it in found]
+
+
+def multi_sequences(repo, handlers):
+    defs = fn_defs(repo)
+    R = lambda f: "(XReg %s)" % f
+    hb = {k: re.sub(r"\s+", "", v) for k, v in handlers.items()}
+
+    def need(op, frag):
+        if frag not in hb[op]:
+            raise TranslateError("%s: handler no longer calls its helper as modelled (%s)" % (op, frag[:50]))
+
+    def field_of(d):
+        m = re.search(r"let gas_cost = self\s*\.\s*(?:gas_costs\(\)|interpreter_params\s*\.\s*gas_costs)\s*\.\s*(\w+)\(\)", re.sub(r"\s+", " ", d[2]))
+        if not m:
+            raise TranslateError("fn %s: gas_cost binding not found" % d[0])
+        return m.group(1)
+
+    seqs = {}
+    # CSIZ / CROO / CCP: wrapper charges base, Ctx charges the rest
+    need("CSIZ", "interpreter.code_size(a,interpreter.registers[b])?;")
+    w, c = pick(defs, "code_size", r"&mut self, ra: RegId, b: Word"), pick(defs, "code_size", r"\( self, result: &mut Word, b: Word")
+    f = field_of(w)
+    seqs["CSIZ"] = charges_in("CSIZ", w[2], {}, f) + charges_in("CSIZ", c[2], {"b": R("FB")}, f)
+    need("CROO", "interpreter.code_root(interpreter.registers[a],interpreter.registers[b])?;")
+    w, c = pick(defs, "code_root", r"&mut self, a: Word, b: Word"), pick(defs, "code_root", r"\(self, a: Word, b: Word")
+    f = field_of(w)
+    seqs["CROO"] = charges_in("CROO", w[2], {}, f) + charges_in("CROO", c[2], {"a": R("FA"), "b": R("FB")}, f)
+    need("CCP", "interpreter.code_copy(interpreter.registers[a],interpreter.registers[b],interpreter.registers[c],interpreter.registers[d],)?;")
+    w = pick(defs, "code_copy", r"&mut self, a: Word, b: Word, c: Word, d: Word")
+    c = pick(defs, "code_copy", r"self, dst_addr: Word, contract_id_addr: Word, contract_offset: Word, length: Word")
+    if "input.code_copy(a,b,c,d)" not in re.sub(r"\s+", "", w[2]):
+        raise TranslateError("CCP: wrapper no longer forwards (a, b, c, d)")
+    f = field_of(w)
+    seqs["CCP"] = charges_in("CCP", w[2], {}, f) + charges_in("CCP", c[2], {"dst_addr": R("FA"), "contract_id_addr": R("FB"), "contract_offset": R("FC"), "length": R("FD")}, f)
+    # LDC: base in the wrapper, then one of three modes
+    need("LDC", "interpreter.load_contract_code(interpreter.registers[a],interpreter.registers[b],interpreter.registers[c],mode,)?;")
+    w = pick(defs, "load_contract_code", r"&mut self, addr: Word, offset: Word, length_unpadded: Word, mode: Imm06")
+    wb = re.sub(r"\s+", "", w[2])
+    if ("matchmode.to_u8(){0=>input.load_contract_code(addr,offset,length_unpadded),1=>input.load_blob_code(addr,offset,length_unpadded),"
+            "2=>input.load_memory_code(addr,offset,length_unpadded),_=>Err(PanicReason::InvalidImmediateValue.into()),}") not in wb:
+        raise TranslateError("LDC: mode dispatch changed")
+    f = field_of(w)
+    seq = charges_in("LDC", w[2], {}, f)
+    pm = {"length_unpadded": R("FC")}
+    for mode, (fname, sig) in enumerate([("load_contract_code", r"mut self, contract_id_addr: Word, contract_offset: Word, length_unpadded: Word"),
+                                         ("load_blob_code", r"mut self, blob_id_addr: Word, blob_offset: Word, length_unpadded: Word"),
+                                         ("load_memory_code", r"mut self, input_src_addr: Word, input_offset: Word, length_unpadded: Word")]):
+        seq += charges_in("LDC", pick(defs, fname, sig)[2], pm, f, "(GModeIs %d)" % mode)
+    seqs["LDC"] = seq
+    # BSIZ / BLDD
+    need("BSIZ", "interpreter.blob_size(a,interpreter.registers[b])?;")
+    d = pick(defs, "blob_size", r"&mut self, dst: RegId, blob_id_ptr: Word")
+    seqs["BSIZ"] = charges_in("BSIZ", d[2], {}, field_of(d))
+    need("BLDD", "interpreter.blob_load_data(interpreter.registers[a],interpreter.registers[b],interpreter.registers[c],interpreter.registers[d],)?;")
+    d = pick(defs, "blob_load_data", r"&mut self, dst_ptr: Word, blob_id_ptr: Word, blob_offset: Word, len: Word")
+    seqs["BLDD"] = charges_in("BLDD", d[2], {"dst_ptr": R("FA"), "blob_id_ptr": R("FB"), "blob_offset": R("FC"), "len": R("FD")}, field_of(d))
+    # CALL
+    need("CALL", "interpreter.prepare_call(a,b,c,d)?;")
+    w = pick(defs, "prepare_call_inner", r"&mut self")
+    c = pick(defs, "prepare_call", r"\(mut self\)")
+    f = field_of(w)
+    cb = c[2].replace("self.registers.system_registers.cgas.as_mut()", "self.cgas").replace("self.registers.system_registers.ggas.as_mut()", "self.ggas").replace("self.gas_cost", "self.gas_cost")
+    seqs["CALL"] = charges_in("CALL", w[2], {}, f) + charges_in("CALL", cb, {}, f)
+    # TR / MINT: fixed charge in the handler, new-entry charge in the Ctx
+    need("TR", "interpreter.transfer(interpreter.registers[a],interpreter.registers[b],interpreter.registers[c],)?;")
+    c = pick(defs, "transfer", r"self, recipient_contract_id_offset: Word")
+    seqs["TR"] = [("GAlways", 'ChFixed "tr"')] + charges_in("TR", c[2], {}, "tr")
+    need("MINT", "interpreter.mint(interpreter.registers[a],interpreter.registers[b])?;")
+    c = pick(defs, "mint", r"\(self, a: Word, b: Word\)")
+    seqs["MINT"] = [("GAlways", 'ChFixed "mint"')] + charges_in("MINT", c[2], {}, "mint")
+    for op, fld in (("TR", "tr"), ("MINT", "mint")):
+        if not re.search(r"\{\s*interpreter\.gas_charge\(interpreter\.gas_costs\(\)\.%s\(\)\)\?;" % fld, handlers[op]):
+            raise TranslateError("%s: first charge changed" % op)
+    return seqs
+
+
+# storage instructions: `noop`, then micro-operations of interpreter/storage.rs
+STORAGE_SHAPES = {"SRW": "ShRead", "SPLD": "ShRead", "SRDD": "ShRead", "SRDI": "ShRead", "SRWQ": "ShReads", "SWW": "ShReadWrite",
+                  "SWWQ": "ShReadWrites", "SCWQ": "ShReadsClear", "SCLR": "ShClear", "SWRD": "ShWrite", "SWRI": "ShWrite",
+                  "SUPD": "ShReadWrite", "SUPI": "ShReadWrite"}
+
+
+def pin_storage(repo, handlers):
+    st = re.sub(r"\s+", "", re.sub(r"//[^\n]*", "", read(repo, "fuel-vm/src/interpreter/storage.rs")))
+    for frag in [
+        "letgas_charge_units=v.as_ref().map(|data|data.len()asu64).unwrap_or(0);letr=f(self.memory.as_mut(),v.as_deref());self.dependent_gas_charge(self.gas_costs().storage_read_hot().map_err(PanicReason::from)?,gas_charge_units,)?;",
+        "letgas_charge_units=value.as_ref().map(|data|data.len()asu64).unwrap_or(0);letr=f(self.memory.as_mut(),value.as_deref());self.dependent_gas_charge(self.gas_costs().storage_read_cold().map_err(PanicReason::from)?,gas_charge_units,)?;",
+        "letold_len=self.storage_slot_len_no_gas(contract_id,key)?;",
+        "letgas_charge_units=value.len()asu64;self.storage_slot_cache.insert(cache_key,Some(value));self.dependent_gas_charge(self.gas_costs().storage_write().map_err(PanicReason::from)?,gas_charge_units,)?;"
+        "self.gas_charge(self.gas_costs().new_storage_per_byte().saturating_mul(gas_charge_units.saturating_sub(old_lenasu64)),)?;",
+        "self.dependent_gas_charge(self.gas_costs().storage_clear().map_err(PanicReason::from)?,rangeasu64,)?;",
+    ]:
+        if frag not in st:
+            raise TranslateError("storage.rs: micro-operation charges changed: " + frag[:60])
+    calls = {"ShRead": ["storage_read_slot(", "storage_read_to_memory", "storage_preload", "dynamic_storage_read"],
+             "ShReads": ["storage_read_slot("], "ShReadWrite": ["storage_write_slot", "dynamic_storage_update"],
+             "ShReadWrites": ["storage_read_slot(", "storage_write_slot_from_memory"], "ShReadsClear": ["storage_read_slot(", "storage_clear_slot_range"],
+             "ShClear": ["storage_clear_slot_range"], "ShWrite": ["dynamic_storage_write"]}
+    for op, sh in STORAGE_SHAPES.items():
+        if not any(c in handlers[op] for c in calls[sh]):
+            raise TranslateError("%s: storage handler no longer has shape %s" % (op, sh))
+        if sh in ("ShClear", "ShWrite") and "storage_read_slot(" in handlers[op]:
+            raise TranslateError("%s: storage handler now reads" % op)
+
+
 # the getter name differs from the field name for a few costs
 GETTER_FIELD = {"eq_": "eq"}
 
@@ -286,6 +539,40 @@ def generate(repo):
     L.append("Definition gas_units : list (N * unit_src) := [")
     L.append(";\n".join("  (%d, %s)" % (b, u) for (b, n, s, u, m) in rows if u != "UNone"))
     L.append("].")
+    L.append("")
+    seqs = multi_sequences(repo, handlers)
+    pin_storage(repo, handlers)
+    L.append("(* FULL charge sequence of every handler, in program order *)")
+    L.append("Definition gas_seq : list (N * cseq) := [")
+    srows = []
+    for (b, n, sel, u, m) in rows:
+        if n in seqs:
+            if not m:
+                raise TranslateError("%s: has a full sequence but is not in gas_more" % n)
+            items = seqs[n]
+            if not items or not items[0][1].startswith(("ChBase", "ChFixed")):
+                raise TranslateError("%s: sequence does not start with its first charge" % n)
+        elif sel.startswith("SelFixed"):
+            if m and n not in STORAGE_SHAPES:
+                raise TranslateError("%s: charges more than once but its sequence is not modelled" % n)
+            items = [("GAlways", "ChFixed %s" % sel.split(" ", 1)[1])]
+        elif sel.startswith("SelDep "):
+            if m:
+                raise TranslateError("%s: dependent charge plus more charges is not modelled" % n)
+            items = [("GAlways", "ChDep %s %s" % (sel.split(" ", 1)[1], u.replace("UReg0is32", "XReg0is32").replace("UReg", "XReg").replace("UImm", "XImm")))]
+        elif sel == "SelNone":
+            items = []
+        else:
+            raise TranslateError("%s: no charge sequence" % n)
+        srows.append("  (%d, [%s])" % (b, "; ".join("(%s, %s)" % it for it in items)))
+    L.append(";\n".join(srows))
+    L.append("].")
+    L.append("")
+    L.append("(* storage instructions: shape of the micro-operation list after the `noop` charge *)")
+    L.append("Definition gas_storage : list (N * sshape) := [%s]." % "; ".join("(%d, %s)" % (b, STORAGE_SHAPES[n]) for (b, n, sel, u, m) in rows if n in STORAGE_SHAPES))
+    for (b, n, sel, u, m) in rows:
+        if m and n not in seqs and n not in STORAGE_SHAPES:
+            raise TranslateError("%s: multi-charge opcode without a modelled sequence" % n)
     L.append("")
     L.append("(* opcodes whose handler may charge more gas after the first charge *)")
     L.append("Definition gas_more : list N := [%s]." % "; ".join(str(b) for (b, n, s, u, m) in rows if m))
